@@ -314,7 +314,10 @@ def run(case, hooks=None):
             elif what == "lose":
                 sim.lose(notify=arg.get("notify", True), eof=arg.get("eof", False))
             elif what == "write_fails":
-                sim.gw.write_fails = True
+                if arg.get("nth"):
+                    sim.gw.fail_write_in = arg["nth"]       # the n-th write from now fails (and every later one)
+                else:
+                    sim.gw.write_fails = True
             elif what == "hup":
                 if sim.gw.fd is not None:
                     sim.loop.fire_reader(sim.gw.fd)
